@@ -2,6 +2,8 @@ import EmbitModel.Driver.Proto
 import EmbitModel.Crypto.Hmac
 import EmbitModel.Crypto.Ripemd160
 import EmbitModel.Crypto.SecpJac
+import EmbitModel.Crypto.SecpLawful
+import EmbitModel.Model.SignWithOps
 import EmbitModel.Model.Bip32
 import EmbitModel.Model.Base58Check
 import EmbitModel.Spec.Bip32
@@ -17,17 +19,11 @@ import EmbitModel.Spec.KeyEncodings
 namespace Embit.Driver.KeyDrv
 open Embit Embit.Crypto Embit.Keys Embit.Driver
 
-def secpOps : EcOps where
-  Pt := Secp.Pt
-  n := Secp.n
-  add := Secp.add
-  neg := Secp.neg
-  mulG := SecpJac.mulG
-  isInf := Option.isNone
-  x := fun P => match P with | some (x, _) => x | none => 0
-  y := fun P => match P with | some (_, y) => y | none => 0
-  liftX := fun v => match Secp.liftX v false with | none => none | some q => some (some q)
-  ofXY := fun a b => if Secp.onCurve a b then some (some (a, b)) else none
+/-- the curve record of the key ops (C09 / C10 and everything parsed with `tokHD` / `tokPub`): the BRIDGED lawful
+    secp256k1 record, `toKeys Crypto.secpLawful` — `Keys.EcLaws KeyDrv.secpOps` is a theorem (Props/C08W
+    `secpLawful_key_laws`). It replaced a hand-written record over `Option (Nat × Nat)` (junk points: second audit A-1),
+    whose `mulG` was `SecpJac.mulG`; that function is still compared with the affine reference by `ec.mulcheck`. -/
+def secpOps : Embit.Keys.EcOps := Embit.Model.SignWith.toKeys Crypto.secpLawful
 
 def dsha (b : Bytes) : Bytes := sha256 (sha256 b)
 
